@@ -265,6 +265,7 @@ func (w *c20World) build(conf *configuration, o *c20Outcome) {
 	w.buildMessages(ctx, b, o)
 	w.buildCache(ctx, b, o)
 	w.buildServers(ctx, b, o)
+	w.buildDDR(ctx, b, o)
 	if w.restart {
 		w.buildRestart(ctx, b, o)
 	}
